@@ -84,7 +84,7 @@ def run(module, cfg=None, wd=None, env=None, workers=1, simulate=None, depth=Non
             f.write(cfg_text)
     meta = os.path.join(wd, "states-%d" % (time.time_ns() % 10**9))
     gc = "-XX:+UseSerialGC" if workers == 1 else "-XX:+UseParallelGC"
-    cmd = ["java", gc, "-Xmx" + heap, "-cp", JAR, "tlc2.TLC",
+    cmd = ["java", gc, "-Xss64m", "-Xmx" + heap, "-cp", JAR, "tlc2.TLC",
            "-workers", str(workers), "-metadir", meta, "-noGenerateSpecTE",
            "-config", cfg + ".cfg"]
     if simulate:
